@@ -222,6 +222,10 @@ func (p *parser) reduce() (err error) {
 	}
 }
 
+// unescaper removes the escaping backslashes of a word: an escaped backslash stands for one backslash,
+// any other backslash is dropped and the character after it is kept.
+var unescaper = strings.NewReplacer(`\\`, `\`, `\`, "")
+
 func parseLiteral(token lex.Token) (e any, err error) {
 	// if it is a quote then remove escape
 	if token.Typ == lex.TQuoted {
@@ -253,7 +257,7 @@ func parseLiteral(token lex.Token) (e any, err error) {
 
 	// if it contains an escape string then strip it out now
 	if strings.Contains(token.Val, `\`) {
-		return expr.Lit(strings.ReplaceAll(token.Val, `\`, "")), nil
+		return expr.Lit(unescaper.Replace(token.Val)), nil
 	}
 
 	return expr.Lit(token.Val), nil
